@@ -366,6 +366,11 @@ def eval_relalg(term, data):
                 tab, a, b = fk_
                 byid = {t["id"]: t for t in trows}
                 right = [{ta: byid[l[b]], ta + "_link": l} for l in data.get(tab, ()) if l[b] in byid]
+                if cp is not None and place == "on":
+                    # relationship.and_() criteria on a many-to-many go to the secondary->target join, i.e. they
+                    # restrict the right side (matters for FULL joins only)
+                    right = [env for env in right if cp(env) is True]
+                    cp = None
 
                 def link(env, sa=sa, ta=ta, a=a):
                     return ra.eq3(env[sa]["id"], env[ta + "_link"][a])
@@ -564,12 +569,15 @@ def build_core(world, term, data):
                 tab, a, b = fk
                 n[0] += 1
                 sec = md.tables[tab].alias("c%d_sec" % n[0])
-                right = sec.join(t.from_, sec.c[b] == t.pk)
+                inner_on = sec.c[b] == t.pk
+                if crit and place == "on":
+                    inner_on = and_(inner_on, t.crit(U, crit))
+                right = sec.join(t.from_, inner_on)
                 on = s.pk == sec.c[a]
             if t.type_crit() is not None:
                 # single-table criteria of the joined entity belong to the ON clause (they must not turn an outer join into an inner one)
                 on = and_(on, t.type_crit())
-            if crit and place == "on":
+            if crit and place == "on" and kind != "m2m":
                 on = and_(on, t.crit(U, crit))
             frm = frm.join(right, on, isouter=jk == "left", full=jk == "full")
             if crit and place == "where":
